@@ -13,7 +13,7 @@ HEADER = "From Coq Require Import ZArith List.\nImport ListNotations.\nFrom IBL.
 TOL = 1e-9
 TRUSTED = [
     "Coq 8.16.1 kernel + vm_compute (no native_compute); C18 theorems over Z / lists / abstract rings and fields: "
-    "Closed under the global context; C18_cosine_* (Reals): the standard library's classical-reals axioms only",
+    "Closed under the global context; C18_cosine_monotone (Reals): the standard library's classical-reals axioms only",
     "hand-written model coq/C18/Model.v (+ ModelR.v for the real-valued taper) of ibldsp.fourier.{ns_optim_fft, convolve, "
     "fscale, freduce, fexpand, _freq_vector/_freq_filter, dft} and utils.fcn_cosine, tied to /repo/src by this run's correspondence",
     "np.fft.{fft,ifft,rfft,irfft} compute the DFT sums with an exact primitive root of unity (section hypotheses "
@@ -579,6 +579,12 @@ def part_filters(ctx, cs):
             ts[tuple(rng.randrange(s) for s in shp)] = 1.0          # an impulse somewhere
         dd = dict(d, ts=ts.astype(int).tolist(), axis=axis)
         use_axis = axis if (axis < nd - 1 or rng.random() < 0.5) else None
+        rr = rng.random()
+        if use_axis is not None and rr < 0.25:
+            use_axis = axis - nd                      # negative axis numbers name the same axes
+        elif use_axis is not None and rr < 0.45:
+            use_axis = rng.choice([np.int64, np.int32, np.intp])(axis)     # axis as a NumPy integer
+        dd["axis_passed"] = repr(use_axis)
         try:
             o_lp = np.asarray(f.lp(ts.copy(), si, bf[0:2], axis=use_axis))
             o_hp = np.asarray(f.hp(ts.copy(), si, bf[0:2], axis=use_axis))
@@ -619,7 +625,7 @@ def part_filters(ctx, cs):
             shp = [rng.randrange(2, 6) for _ in range(nd)]
             ts = rand_ints(rng, int(np.prod(shp))).reshape(shp).astype(np.float64)
             dn = {"op": "filter-negative-axis", "ts": ts.astype(int).tolist(), "axis": -k, "si": 1, "b": [0.1, 0.3]}
-            tg = {"op": "filter", "class": "negative-axis"}
+            tg = {"op": "filter", "kind": "negative-axis"}
             try:
                 o = np.asarray(f.lp(ts.copy(), 1, [0.1, 0.3], axis=-k))
                 ref = np.asarray(f.lp(ts.copy(), 1, [0.1, 0.3], axis=nd - k))
